@@ -209,6 +209,15 @@ ExtFiles == UNION {{f \in [1..n -> UNION {ExtTab(no) : no \in 1..MaxSteps}] : \A
 \* 0: ETA columns; 1: ETA columns and an individual without observations (all zero); 2: PHI columns;
 \* 3: as 1, and another individual whose ETAs are all exactly zero but who has observations (ETC, OBJ non-zero)
 PhiVariants == 0..3
+\* The covariance step writes .cov, .cor and .coi; users keep any non-empty subset of them.  The reported covariance
+\* matrix is the .cov file when present, otherwise it has to be derived: from .cor and the standard errors of the
+\* .ext file (cov = D cor D), otherwise from .coi (cov = coi^-1).  Whatever the source, the expected matrix is
+\* CovExpected (the matrix NONMEM wrote).
+MatSets == << {"cov"}, {"cov", "cor", "coi"}, {"cor", "coi"}, {"cor"}, {"cov", "coi"}, {"coi"}, {"cov", "cor"} >>
+CovSource(ms) == IF "cov" \in ms THEN "cov" ELSE IF "cor" \in ms THEN "cor" ELSE "coi"
+MatSetsOK == /\ \A k \in 1..Len(MatSets) : MatSets[k] # {} /\ MatSets[k] \subseteq {"cov", "cor", "coi"}
+             /\ \A src \in {"cov", "cor", "coi"} : \E k \in 1..Len(MatSets) : CovSource(MatSets[k]) = src
+ASSUME MatSetsOK
 Init == /\ pc = 1
         /\ acc = <<>>
         /\ \/ /\ "gen" \in Modes /\ mode = "gen"
@@ -231,7 +240,10 @@ Init == /\ pc = 1
                     /\ \A k \in 1..Len(tabs) : tabs[k].iters = tabs[1].iters
                     /\ (~AllPhi => pv = ((cfg.nth + Len(tabs) + (IF tabs[Len(tabs)].rows = "full" THEN 1 ELSE 0)) % 4))
                     /\ (~AllIters => tabs[1].iters = IF (cfg.nth + Len(tabs) + (IF cfg.sg = "d1" THEN 0 ELSE 1)) % 2 = 0 THEN "0" ELSE "0-5-10")
-                    /\ file = [cfg |-> cfg, tabs |-> tabs, phikind |-> IF pv = 2 THEN "PHI" ELSE "ETA", zero |-> pv \in {1, 3}, zeta |-> pv = 3, design |-> dsg]
+                    /\ file = [cfg |-> cfg, tabs |-> tabs, phikind |-> IF pv = 2 THEN "PHI" ELSE "ETA", zero |-> pv \in {1, 3}, zeta |-> pv = 3, design |-> dsg,
+                                \* which of the matrix files of the covariance step are (still) in the run directory
+                                mats |-> MatSets[1 + ((cfg.nth + Len(tabs) + (IF cfg.om = "d2" THEN 1 ELSE 0) + (IF cfg.sg = "d1" THEN 0 ELSE 2)
+                                                      + (IF cfg.fix = "none" THEN 0 ELSE 3) + (IF tabs[1].iters = "0" THEN 0 ELSE 1)) % Len(MatSets))]]
                     /\ lines = ExtLines([cfg |-> cfg, tabs |-> tabs, design |-> dsg])
 
 \* ---------------------------------------------------------------- the reader: a line automaton
@@ -411,6 +423,7 @@ Emit ==
                       ext |-> LET pos == RepPos(cfg) IN [k \in 1..Len(file.tabs) |-> ExtOut(cfg, pos, file.tabs[k])],
                       runfixed |-> RunFixed(cfg),
                       has_se |-> HasSE,
+                      mats |-> file.mats, covsrc |-> CovSource(file.mats),
                       covfile |-> [a \in 1..Len(FileOrder(cfg)) |-> [b \in 1..Len(FileOrder(cfg)) |-> CovFileVal(cfg, a, b)]],
                       cov |-> CovExpected(cfg),
                       covidx |-> SetToSeq(KeptIdx(cfg)),
